@@ -280,9 +280,226 @@ func makeBFS(c *cfg, cnt *counters) *mc.BFS[op] {
 	}
 }
 
+// longCase is one fixed long history on a heap of up to N distinct elements.
+type longCase struct {
+	N       int    `json:"n"`
+	Pattern string `json:"pattern"` // asc desc perm zigzag
+	Desc    bool   `json:"desc,omitempty"`
+	Data    bool   `json:"with_data,omitempty"` // start from NewWithData of the first third
+}
+
+func longValues(n int, pattern string) []int {
+	out := make([]int, n)
+	for i := range out {
+		switch pattern {
+		case "asc":
+			out[i] = i
+		case "desc":
+			out[i] = n - 1 - i
+		case "zigzag":
+			if i%2 == 0 {
+				out[i] = i / 2
+			} else {
+				out[i] = n - 1 - i/2
+			}
+		default: // a fixed permutation: multiply by a unit modulo n
+			m := 1
+			for _, c := range []int{7919, 104729, 1299709, 3, 5, 7} {
+				if gcd(c%max(n, 1), n) == 1 {
+					m = c % n
+					break
+				}
+			}
+			out[i] = (i*m + n/3) % n
+		}
+	}
+	return out
+}
+
+func gcd(a, b int) int {
+	for b != 0 {
+		a, b = b, a%b
+	}
+	return a
+}
+
+// checkLong drives one long history and compares, after every call, each
+// tracked element's last reported position with where Peek finds it.
+func checkLong(c longCase) *mc.Failure {
+	return mc.GuardT("heap-long", c, func() *mc.Failure {
+		cmp := asc
+		if c.Desc {
+			cmp = dsc
+		}
+		pos := map[int]int{}
+		tracked := map[int]bool{}
+		held := map[int]bool{}
+		u := func(v, p int) { pos[v] = p }
+		vals := longValues(c.N, c.Pattern)
+		var q *heapq.Queue[int]
+		start := 0
+		if c.Data {
+			start = c.N / 3
+			q = heapq.NewWithData(cmp, append([]int(nil), vals[:start]...)).Update(u)
+			for _, v := range vals[:start] {
+				held[v] = true
+			}
+		} else {
+			q = heapq.New(cmp).Update(u)
+		}
+		step := 0
+		verify := func(what string) *mc.Failure {
+			step++
+			if q.Len() != len(held) {
+				return mc.Failf(step, "%s: Len=%d want %d", what, q.Len(), len(held))
+			}
+			n := 0
+			for i := 0; ; i++ {
+				v, ok := q.Peek(i)
+				if !ok {
+					break
+				}
+				n++
+				if !held[v] {
+					return mc.Failf(step, "%s: element %d at offset %d is not held", what, v, i)
+				}
+				if tracked[v] {
+					if p, ok := pos[v]; !ok || p != i {
+						return mc.Failf(step, "%s: last reported position of %d is %d (reported=%v) but Peek finds it at %d (%d elements)", what, v, p, ok, i, q.Len())
+					}
+				}
+			}
+			if n != len(held) {
+				return mc.Failf(step, "%s: Peek sees %d elements, want %d", what, n, len(held))
+			}
+			return nil
+		}
+		drop := func(v int) { delete(held, v); delete(tracked, v); delete(pos, v) }
+		add := func(v int) *mc.Failure {
+			held[v], tracked[v] = true, true
+			idx := q.Add(v)
+			if p, ok := pos[v]; !ok || p != idx {
+				return mc.Failf(step+1, "Add(%d) returned %d but the last reported position is %d (reported=%v)", v, idx, p, ok)
+			}
+			return verify(fmt.Sprintf("Add(%d)", v))
+		}
+		removeAt := func(i int) *mc.Failure {
+			want, have := 0, false
+			for v := range tracked {
+				if pos[v] == i {
+					want, have = v, true
+				}
+			}
+			v, ok := q.Remove(i)
+			if !ok {
+				return mc.Failf(step+1, "Remove(%d) with %d elements reported nothing", i, len(held))
+			}
+			if have && v != want {
+				return mc.Failf(step+1, "Remove(%d) removed %d, but %d is the element whose reported position is %d", i, v, want, i)
+			}
+			drop(v)
+			return verify(fmt.Sprintf("Remove(%d)", i))
+		}
+		for _, v := range vals[start:] {
+			if f := add(v); f != nil {
+				return f
+			}
+		}
+		// thin out: remove at positions spread over all levels, re-adding every other one
+		x := uint64(c.N)*2654435761 + 17
+		for k := 0; k < c.N/2 && q.Len() > 0; k++ {
+			x = x*6364136223846793005 + 1442695040888963407
+			i := int((x >> 33) % uint64(q.Len()))
+			if k%5 == 0 {
+				i = q.Len() - 1
+			}
+			if f := removeAt(i); f != nil {
+				return f
+			}
+			if k%2 == 0 {
+				if f := add(c.N + k); f != nil {
+					return f
+				}
+			}
+		}
+		q.Reorder(map[bool]func(a, b int) int{true: asc, false: dsc}[c.Desc])
+		if f := verify("Reorder"); f != nil {
+			return f
+		}
+		for k := 0; k < c.N/4 && q.Len() > 0; k++ {
+			v, _ := q.Pop()
+			drop(v)
+			if f := verify("Pop"); f != nil {
+				return f
+			}
+		}
+		// replace the contents: every new element must be reported where Set put it
+		for v := range held {
+			drop(v)
+		}
+		fresh := longValues(c.N, "zigzag")
+		for i := range fresh {
+			fresh[i] += 10 * c.N
+			held[fresh[i]], tracked[fresh[i]] = true, true
+		}
+		q.Set(fresh)
+		if f := verify("Set"); f != nil {
+			return f
+		}
+		for k := 0; q.Len() > 0; k++ {
+			if k%3 == 2 {
+				if f := removeAt(q.Len() / 2); f != nil {
+					return f
+				}
+				continue
+			}
+			v, ok := q.Pop()
+			if !ok {
+				return mc.Failf(step+1, "Pop on %d elements reported nothing", len(held))
+			}
+			if !held[v] {
+				return mc.Failf(step+1, "Pop returned %d, which is not held", v)
+			}
+			drop(v)
+			if f := verify("Pop"); f != nil {
+				return f
+			}
+		}
+		return nil
+	})
+}
+
 func main() {
 	var cnt counters
 	mc.Main("C06", mc.Harness{
+		Name: "heap-long",
+		Explore: func(r *mc.Run) {
+			var cases []longCase
+			for _, n := range mc.Pick(r, []int{17, 33, 64, 65, 130, 300}, []int{17, 33, 64, 65, 130, 300, 1023, 1024, 1025, 3000}) {
+				for _, p := range []string{"asc", "desc", "perm", "zigzag"} {
+					for _, d := range []bool{false, true} {
+						cases = append(cases, longCase{n, p, d, false}, longCase{n, p, d, true})
+					}
+				}
+			}
+			mc.ParallelFor(len(cases), r.Workers, func(i int) {
+				if f := checkLong(cases[i]); f != nil {
+					r.Violation(mc.Case{Harness: "heap-long", Trace: mc.J(cases[i]), Msg: f.Msg, Step: f.Step})
+				}
+			})
+			n := int64(len(cases))
+			r.AddEval(n, n, n, n)
+			r.Rule("fixed long histories (fill in four orders, thin out by Remove at positions on every level with re-adds, Reorder, drain by Pop and Remove) on heaps of 17...300/3000 distinct elements, both directions, from New and from NewWithData; every tracked element's reported position compared with Peek after every call")
+			r.Sample(longCase{65, "perm", false, true})
+		},
+		Replay: func(c mc.Case) *mc.Failure {
+			var l longCase
+			if err := mc.Unmarshal(c.Trace, &l); err != nil {
+				return mc.Failf(-1, "bad trace: %v", err)
+			}
+			return checkLong(l)
+		},
+	}, mc.Harness{
 		Name: "heap-pos-bfs",
 		Explore: func(r *mc.Run) {
 			c := &cfg{V: mc.Pick(r, 6, 8), N: mc.Pick(r, 6, 8), SetLen: mc.Pick(r, 3, 3),
